@@ -89,6 +89,20 @@ def shipped_raw():
     return raw
 
 
+def unreadable_files():
+    '''shipped resource / agent config files which are not valid json'''
+    bad = list()
+    for fname in sorted(os.listdir(CFG_DIR)):
+        if fname.endswith('.json') and \
+           (fname.startswith('resource_') or fname.startswith('agent_')):
+            try:
+                data = ru.read_json(os.path.join(CFG_DIR, fname))
+                assert isinstance(data, dict), type(data)
+            except Exception as e:
+                bad.append((fname, repr(e)))
+    return bad
+
+
 def _raw_value(raw, schema, key, default=None):
     '''a schema entry overrides the platform entry (documented merge)'''
     scfg = (raw.get('schemas') or {}).get(schema)
@@ -609,20 +623,23 @@ def size_features(ns, env_smt, size, nref):
     elif ns['smt'] > 1                  : f.add('smt')
     if size.get('backup_nodes')         : f.add('backup')
     if ns['u'] <= 0                     : f.add('no-node-size')
-    if ns['g'] > 0                      : f.add('gpu-nodes')
     if size.get('gpus')                 : f.add('gpus')
     if not size.get('nodes') and ns['u'] > 0:
-        u, g = ns['u'], ns['g']
-        nc = ceil_div(size.get('cores', 0), u)
-        if size.get('cores', 0) % u     : f.add('partial-node')
-        if g > 0 and ceil_div(size.get('gpus', 0), g) > nc:
+        u, g   = ns['u'], ns['g']
+        c, x   = size.get('cores', 0), size.get('gpus', 0)
+        nc, ng = ceil_div(c, u), (ceil_div(x, g) if g > 0 else 0)
+        # which of the two requests decides, and does it fill whole nodes
+        if g > 0 and x * u > c * g:
             f.add('gpu-bound')
+            if x % g                    : f.add('partial-node')
+        elif c % u                      : f.add('partial-node')
+        if ng > nc                      : f.add('gpu-bound')
     if nref is not None and nref > 1    : f.add('multi-node')
     return frozenset(f)
 
 
 FEATURE_ORDER = ['nodes-given', 'cores-given', 'no-node-size', 'partial-node',
-                 'gpu-bound', 'gpus', 'gpu-nodes', 'backup', 'blocked-cores',
+                 'gpu-bound', 'gpus', 'backup', 'blocked-cores',
                  'blocked-gpus', 'smt', 'env-smt', 'multi-node']
 
 
@@ -831,6 +848,19 @@ def run(ctx):
     _tier     = ctx.tier
 
     os.environ['RPMC_SCRATCH'] = ctx.scratch
+
+    bad = unreadable_files()
+    for fname, err in bad:
+        ctx.violation('config-unreadable|ru.Config|%s' % fname,
+                      {'what': 'configs/%s cannot be read: %s' % (fname, err)},
+                      {'kind': 'file', 'file': fname})
+    if bad:
+        # none of the platforms in these files (or no platform at all) loads
+        ctx.cover(evaluations=len(bad))
+        ctx.cap('unreadable configuration files: nothing else was checked')
+        ctx.set(distinct_nontrivial=len(ctx.outcomes))
+        return
+
     w      = world()
     labels = list(w.labels)
 
@@ -885,6 +915,10 @@ def replay(ctx, data):
 
     r = data['replay']
     os.environ['RPMC_SCRATCH'] = ctx.scratch
+    if r['kind'] == 'file':
+        bad = [b for b in unreadable_files() if b[0] == r['file']]
+        print('replaying', r, '->', bad or 'readable')
+        return 1 if bad else 0
     w     = world()
     label = r['label']
     raw   = w.raw[label]
